@@ -1392,8 +1392,23 @@ def explore_item(item, acc, limit=None):
         acc.count("capped")
     if n >= 2:
         acc.nt(repr(item))
+    acc.outcomes.add(outcome_class(item, t))
     add_violations(acc, s.verdicts, item, n)
     return s
+
+
+def outcome_class(item, t):
+    """What kind of result the receiving side is expected to end up with (for the coverage numbers)."""
+    if item[0] == "medium":
+        return (item[1],) + tuple(sorted({"v%d:%s:%s" % (x[0][1], x[0][2].decode(), x[0][4]) for x in item[2]}))
+    exp = t.expected
+    keys = tuple(sorted(k for k, v in exp.items() if v not in (None, 0) and k != "response"))
+    extra = ""
+    if "raised" in exp and exp["raised"]:
+        extra = exp["raised"][0]
+    elif isinstance(exp.get("body"), tuple):
+        extra = exp["body"][0]
+    return (item[0], t.name, keys, extra)
 
 
 def add_violations(acc, verdicts, item, n):
